@@ -4,7 +4,7 @@ import re
 from common import *
 import fsweep
 
-KINDS = ["enum", "mapping", "class", "block", "xlist", "namespace", "module"]
+KINDS = ["enum", "mapping", "class", "block", "xlist", "namespace", "module", "templates"]
 # generative constructors that are documented to unify (the property's two exceptions) or that are accessors of
 # unified nodes in disguise
 MAY_UNIFY = {"make_literal", "make_template_id"}
